@@ -1268,7 +1268,7 @@ Lemma dedup_nodup : forall l, NoDup (dedup l).
 Proof.
   induction l as [|y l IH]; simpl; [constructor|].
   destruct (existsb (String.eqb y) l) eqn:E; [assumption|].
-  constructor; [|assumption]. intro H. apply dedup_in in H.
+  constructor; [|assumption]. intro H. apply (proj1 (dedup_in l y)) in H.
   assert (existsb (String.eqb y) l = true); [|congruence].
   apply existsb_exists. exists y. split; [assumption | apply String.eqb_refl].
 Qed.
@@ -1289,7 +1289,7 @@ Proof.
   - destruct (String.leb x z).
     + constructor; assumption.
     + inversion Hl as [|z' l' Hz Hl']. subst. constructor.
-      * intro H. apply insert_sorted_in in H as [->|H]; [apply Hx; now left | contradiction].
+      * intro H. apply (proj1 (insert_sorted_in x l z)) in H as [->|H]; [apply Hx; now left | contradiction].
       * apply IH; [|assumption]. intro H. apply Hx. now right.
 Qed.
 
@@ -1405,7 +1405,7 @@ Qed.
 Lemma body_decls_in : forall b d, In d (body_decls b) <-> In (MTun d) b.
 Proof.
   intros b d. unfold body_decls. rewrite in_flat_map. split.
-  - intros [[d'|n] [Hm Hd]]; destruct Hd as [<-|[]]. assumption.
+  - intros [[d'|n] [Hm Hd]]; [destruct Hd as [<-|[]]; assumption | destruct Hd].
   - intros H. exists (MTun d). split; [assumption | now left].
 Qed.
 
@@ -1459,4 +1459,27 @@ Theorem setup_hierarchy_untouched : forall w i mro p c k,
 Proof.
   intros w i mro p c k H. unfold setup_class. apply setup_untouched.
   intros d Hd. apply H. now apply class_members_char.
+Qed.
+
+(* ... and what the attribute reads right after that setup: the default of the
+   definition the class resolves the name to, or the value the topic already
+   had when that definition says writeDefault=False *)
+Theorem setup_hierarchy_read : forall w i mro p c d,
+  (forall b m, In b mro -> In m b -> no_slash (member_name m) = true) ->
+  class_getattr mro (d_attr d) = Some (MTun d) -> public d = true ->
+  snd (step w (setup_class i mro p c)) = EvSetup true ->
+  py_read (fst (step w (setup_class i mro p c))) i (d_attr d) =
+  EvVal (if d_wd d then canon (d_default d)
+         else match nt_get (w_nt w) (key_of p c (d_subtable d) (d_attr d)) with
+              | Some (_, v) => v
+              | None => canon (d_default d)
+              end).
+Proof.
+  intros w i mro p c d Hns Hg Hpub Hok.
+  destruct (setup_hierarchy w i mro p c d Hns Hg Hpub Hok) as [b [ty [Hb [_ [Hbind Hnt]]]]].
+  destruct (d_wd d).
+  - apply (bound_read_sees_topic _ i b _ _ _ _ ty _ Hb Hbind Hnt).
+  - destruct (nt_get (w_nt w) (key_of p c (d_subtable d) (d_attr d))) as [[t v]|].
+    + apply (bound_read_sees_topic _ i b _ _ _ _ t _ Hb Hbind Hnt).
+    + apply (bound_read_sees_topic _ i b _ _ _ _ ty _ Hb Hbind Hnt).
 Qed.
